@@ -121,8 +121,8 @@ CLAIMED = {
         "C02_agrees_with_numeric_std_* (for + - * truncdiv mod rem, comparisons, neg/abs, shifts, resize: the documented value equals what numeric_std computes on the operand shapes the backend emits, all widths and values), select-first-match, chained comparison, concat, shift kind. "
         "Per generated design (every operator x operand-type x width pair at small widths, int operands either side, slices, run-time indices, views, if-expressions, select_with, any/all, arrays, random trees of depth 3) a kernel-checked theorem that the parsed VHDL "
         "emitted on this run yields the documented value for ALL operand valuations. "
-        "All expression trees (partial): Models/ExprEmit.v models what the back end prints for a tree (temporaries inlined); C02_emit_correct_partial proves by induction over the tree, for all widths and valuations, that the printed expression evaluates under Vhdl.Sem to the documented value "
-        "(inputs, constants, views, index, nested slices, unary operators, all comparisons, + - * truncdiv mod rem on equal-kind vectors, shifts; int-literal arithmetic, bitwise, concat and resize are modelled and tied but not yet composed); the model is compared syntactically (expr_eqb inside Coq) with the inlined emitted VHDL of every generated expression on every run.",
+        "All expression trees: Models/ExprEmit.v models what the back end prints for a tree (temporaries inlined); C02_emit_correct proves by induction over the tree, for EVERY tree the model prints, all widths and all valuations on which the documented value is defined, that the printed expression evaluates under Vhdl.Sem to the documented value "
+        "(inputs, constants, views, index, nested slices, unary operators, all comparisons, + - * truncdiv mod rem incl. int literals on either side, bitwise, concat, shifts, resize; if-expressions / select_with / chained comparisons / run-time indices are outside the printed-expression model and decided per design); the model is compared syntactically (expr_eqb inside Coq) with the inlined emitted VHDL of every generated expression on every run.",
    technique="Rocq proof: typed reference evaluator + agreement with the numeric_std model for all widths; verified checker per compiled expression design, exhaustive over operand values",
    design_ref="DESIGN.md §6 C02"),
  "C05": dict(
